@@ -14,6 +14,7 @@ import "bytes"
 //@ spec
 //@ property C11
 //@ decreases len(a)
+
 func specCompareWithSlash(a, b []byte) int {
 	if len(a) == 0 || len(b) == 0 {
 		if len(a) < len(b) {
@@ -59,6 +60,7 @@ func specCompareWithSlash(a, b []byte) int {
 //@ lemma
 //@ trusted
 //@ ensures bytes.Compare(a, b) == -bytes.Compare(b, a)
+
 func axBytesCompareAntisym(a, b []byte) {}
 
 //@ func axBytesCompareTrans
@@ -66,6 +68,7 @@ func axBytesCompareAntisym(a, b []byte) {}
 //@ trusted
 //@ ensures bytes.Compare(a, b) <= 0 && bytes.Compare(b, c) <= 0 ==> bytes.Compare(a, c) <= 0
 //@ ensures bytes.Compare(a, b) <= 0 && bytes.Compare(b, c) <= 0 && (bytes.Compare(a, b) < 0 || bytes.Compare(b, c) < 0) ==> bytes.Compare(a, c) < 0
+
 func axBytesCompareTrans(a, b, c []byte) {}
 
 //@ func lemmaSlashRefl
@@ -73,6 +76,7 @@ func axBytesCompareTrans(a, b, c []byte) {}
 //@ property C11
 //@ ensures specCompareWithSlash(a, a) == 0
 //@ decreases len(a)
+
 func lemmaSlashRefl(a []byte) {
 	if len(a) == 0 {
 		return
@@ -89,6 +93,7 @@ func lemmaSlashRefl(a []byte) {
 //@ property C11
 //@ ensures specCompareWithSlash(a, b) == -specCompareWithSlash(b, a)
 //@ decreases len(a)
+
 func lemmaSlashAntisym(a, b []byte) {
 	if len(a) == 0 || len(b) == 0 {
 		return
@@ -110,6 +115,7 @@ func lemmaSlashAntisym(a, b []byte) {
 //@ property C11
 //@ ensures -1 <= specCompareWithSlash(a, b) && specCompareWithSlash(a, b) <= 1
 //@ decreases len(a)
+
 func lemmaSlashRange(a, b []byte) {
 	if len(a) == 0 || len(b) == 0 {
 		return
@@ -131,6 +137,7 @@ func lemmaSlashRange(a, b []byte) {
 //@ ensures specCompareWithSlash(a, c) <= 0
 //@ ensures (specCompareWithSlash(a, b) < 0 || specCompareWithSlash(b, c) < 0) ==> specCompareWithSlash(a, c) < 0
 //@ decreases len(a)
+
 func lemmaSlashTrans(a, b, c []byte) {
 	if len(a) == 0 || len(b) == 0 || len(c) == 0 {
 		return
@@ -162,6 +169,7 @@ func lemmaSlashTrans(a, b, c []byte) {
 //@ property C11
 //@ ensures specCompareWithSlash(a, b) == 0 <==> bytes.Equal(a, b)
 //@ decreases len(a)
+
 func lemmaSlashEq(a, b []byte) {
 	if len(a) == 0 || len(b) == 0 {
 		return
@@ -171,4 +179,50 @@ func lemmaSlashEq(a, b []byte) {
 		return
 	}
 	lemmaSlashEq(a[ia+1:], b[ib+1:])
+}
+
+// ---------------------------------------------------------------------------
+// Coherence of the functions bound in kv.OxiaSlashSpanComparer with the contract
+// pebble documents for a Comparer (internal/base/comparer.go):
+//   Separator: Compare(a,b) < 0  ==>  Compare(a,k) <= 0 && Compare(k,b) < 0
+//   Successor: Compare(k,a) >= 0
+// The real functions return a copy of a; the lemmas lift "k equals a" to the
+// two inequalities through the proved order laws.
+
+//@ func SeparatorWithSlash(dst, a, b)
+//@ property C11
+//@ requires disjoint(dst, a)
+//@ ensures len(result) == len(dst) + len(a)
+//@ ensures bytes.Equal(result[len(dst):], a)
+//@ ensures forall k int :: 0 <= k && k < len(dst) ==> result[k] == old(dst[k])
+//@ modifies elems(dst)
+
+//@ func SuccessorWithSlash
+//@ property C11
+//@ requires disjoint(dst, a)
+//@ ensures len(result) == len(dst) + len(a)
+//@ ensures bytes.Equal(result[len(dst):], a)
+//@ ensures forall k int :: 0 <= k && k < len(dst) ==> result[k] == old(dst[k])
+//@ modifies elems(dst)
+
+//@ func lemmaIdentitySeparator
+//@ lemma
+//@ property C11
+//@ requires bytes.Equal(k, a) && specCompareWithSlash(a, b) < 0
+//@ ensures specCompareWithSlash(a, k) <= 0 && specCompareWithSlash(k, b) < 0
+
+func lemmaIdentitySeparator(a, b, k []byte) {
+	lemmaSlashEq(k, a)
+	lemmaSlashAntisym(a, k)
+	lemmaSlashTrans(k, a, b)
+}
+
+//@ func lemmaIdentitySuccessor
+//@ lemma
+//@ property C11
+//@ requires bytes.Equal(k, a)
+//@ ensures specCompareWithSlash(k, a) >= 0
+
+func lemmaIdentitySuccessor(a, k []byte) {
+	lemmaSlashEq(k, a)
 }
